@@ -59,6 +59,13 @@ Theorem C14_wsymm_one :
 Proof. exact call_wsymm_one. Qed.
 Print Assumptions C14_wsymm_one.
 
+(* histories: the result of a call is the per-call model value whatever was called before or after it
+   (the model is stateless; the hist family compares every call of a history with it) *)
+Theorem C14_calls_independent : forall (L : libm) (pre : list callargs) (a : callargs) (post : list callargs),
+  nth_error (run_history L (pre ++ a :: post)) (List.length pre) = Some (run_call L a).
+Proof. exact calls_independent. Qed.
+Print Assumptions C14_calls_independent.
+
 (* ================= 2. the dictionaries: aliases and cross references ================= *)
 
 (* for every name of every row, in both dictionaries: the object exists, aliases are the primary's object,
